@@ -138,9 +138,10 @@ def check(ctx):
             rep.refuted("R-C61-forward", rel, qn, h,
                         f"the gradient function is evaluated at `{norm(s0)}`, which differs from `args` when {sorted(c for c in conds if c)}; its forward pass is "
                         "harvested unconditionally and handed to step_and_cost as the cost, which is then the cost at the shifted point, not at the pre-step parameters")
-    from .c61_extra import extra, tstep
+    from .c61_extra import extra, metric_state, tstep
 
     tstep(ctx, rep)
+    metric_state(ctx, rep)
 
     extra(ctx, rep)
     return rep
